@@ -58,7 +58,13 @@ def main():
         try:
             for c in checks:
                 cmd = "%s/check %s --tier quick --no-evidence %s" % (V, c, ("--seed " + seed[0]) if seed else "")
-                r = sh(cmd)
+                try:
+                    r = subprocess.run(cmd, shell=True, capture_output=True, text=True, timeout=1500)
+                except subprocess.TimeoutExpired:
+                    sh("pkill -9 -f vlib.worker")
+                    results[c] = dict(rc=None, verdict="TIMEOUT", first="check did not finish within 1500 s")
+                    print(c, "TIMEOUT")
+                    continue
                 viol = [l for l in r.stdout.splitlines() if l.startswith("violation") or l.startswith("regression")]
                 results[c] = dict(rc=r.returncode, verdict={0: "MISSED", 1: "caught", 2: "HARNESS-ERROR"}.get(r.returncode),
                                   first=(viol[0][:300] if viol else r.stdout[-300:]))
